@@ -4,6 +4,12 @@ Shape: post-condition monitor on do_fit with a closed-form oracle.  W (design ma
 V (reference covariance from the declared parameter-independent sources), constraints as extra measurement
 rows, fixed parameters as deleted columns:  p^ = (A^T S^-1 A)^-1 A^T S^-1 y,  C = (A^T S^-1 A)^-1,
 chi2 = r^T S^-1 r,  asymmetric = (-sigma, +sigma).
+
+Multi-fits: the members' rows are stacked over the union of the parameter names.  An uncertainty source declared through
+MultiFit.add_error / add_matrix_error for several members (of equal size) is ONE source: its covariance sits in the
+diagonal block of every sharing member and in every off-diagonal block between two sharing members of the joint V.
+A constraint is the same extra measurement row whether it was declared on the multi-fit or on a member fit (before the
+multi-fit was built, before or after the shared sources were added).
 """
 import numpy as np
 
@@ -11,12 +17,14 @@ from vlib import gen
 from vlib.fitcase import Member
 from vlib.models import Model
 from vlib.monitor import Tol, fmt_exc, numerical_failure
-from vlib.ref import constraint_cov, pd_info
+from vlib.ref import constraint_cov, pd_info, source_cov
 
 PROPERTY = "C05"
 TIERS = {"quick": {"shards": 8, "budget_s": 30}, "thorough": {"shards": 16, "budget_s": 600}}
 RULE = (
-    "linear model family (poly0-4, trig basis, exp basis) as XYFit / IndexedFit / MultiFit of 2-3 members sharing linear parameters x "
+    "linear model family (poly0-4, trig basis, exp basis) as XYFit / IndexedFit / MultiFit of 2-3 members sharing linear parameters "
+    "(half of the multi-fits with 1-2 absolute y sources, simple with any correlation / matrix, shared by 2..all members of equal size through MultiFit.add_error / "
+    "add_matrix_error(fits=[...] / 'all'); constraints declared on the multi-fit and / or on member fits, before the multi-fit is built, before or after the shared sources) x "
     "parameter-independent sources (absolute / data-relative, simple with any correlation, matrix cov/cor) x constraints x fixed subset x "
     "backend {iminuit, scipy} x start values up to 100 sigma away; non-trivial = correlated V or >=1 constraint or >=1 fixed parameter, "
     "with >=2 free parameters; distinct by case hash"
@@ -45,20 +53,25 @@ ANCHORS = [
 
 def floors(tier):
     return {
-        "comparisons": {"parameter_values": 60, "parameter_cov_mat": 60, "parameter_errors": 60, "parameter_cor_mat": 40, "goodness_of_fit": 60, "cost_function_value": 60, "asymmetric_parameter_errors": 25, "fixed_untouched": 15},
-        "ops": ["do_fit"],
+        "comparisons": {"parameter_values": 60, "parameter_cov_mat": 60, "parameter_errors": 60, "parameter_cor_mat": 40, "goodness_of_fit": 60, "cost_function_value": 60, "asymmetric_parameter_errors": 25, "fixed_untouched": 15,
+                        "parameter_values(multi-fit with shared source)": 8, "parameter_values(multi-fit with shared source and member constraint)": 5, "parameter_values(multi-fit with member constraint)": 5},
+        "ops": ["do_fit", "multi.add_error.shared", "multi.add_matrix_error.shared", "member.add_parameter_constraint", "member.add_matrix_parameter_constraint"],
         "reach": ["%s:%s" % a for a in ANCHORS],
-        "strata": ["xy", "indexed", "multi", "iminuit", "scipy", "fixed", "constraint-simple", "constraint-matrix", "correlated-V", "far-start", "other-unit"],
+        "strata": ["xy", "indexed", "multi", "iminuit", "scipy", "fixed", "constraint-simple", "constraint-matrix", "correlated-V", "far-start", "other-unit",
+                   "multi:shared", "multi:shared:simple", "multi:shared:matrix", "multi:member-constraint", "multi:multi-constraint", "multi:shared+member-constraint",
+                   "multi:shared+member-constraint:on-other-than-last-member", "multi:member-constraint:before-multi", "multi:member-constraint:before-shared", "multi:member-constraint:after-shared"],
         "distinct_nontrivial": 40,
     }
 
 
 # ------------------------------------------------------------------ generation
-def gen_member(rng, ftype, fam, prefix):
+def gen_member(rng, ftype, fam, prefix, n=None):
+    npar = len(Model(fam).pnames)
+    n = int(rng.integers(npar + 2, 14)) if n is None else int(n)
     if ftype == "xy":
-        spec = gen.gen_xy_spec(rng, family=fam, cost="chi2", n=int(rng.integers(len(Model(fam).pnames) + 2, 14)))
+        spec = gen.gen_xy_spec(rng, family=fam, cost="chi2", n=n)
     else:
-        spec = gen.gen_indexed_spec(rng, family=fam, cost="chi2", n=int(rng.integers(len(Model(fam).pnames) + 2, 14)))
+        spec = gen.gen_indexed_spec(rng, family=fam, cost="chi2", n=n)
     n = len(spec.get("y") or spec["data"])
     yscale = float(np.mean(np.abs(spec.get("y") or spec["data"])) + 0.5)
     ops = []
@@ -71,30 +84,70 @@ def gen_member(rng, ftype, fam, prefix):
     return {"spec": spec, "setup": ops}
 
 
+def gen_shared(rng, members, S, n_s, stratified_kind=None):
+    """1-2 absolute y sources declared through the multi-fit for the members S (all of size n_s)"""
+    nm = len(members)
+    yscale = float(np.mean([np.mean(np.abs(members[i]["spec"].get("y") or members[i]["spec"]["data"])) for i in S]) + 0.5)
+    out = []
+    for k in range(2 if rng.random() < 0.3 else 1):
+        sub = list(S) if (k == 0 or len(S) < 3) else [S[0], S[-1]]
+        kind = stratified_kind if (k == 0 and stratified_kind) else str(rng.choice(["simple", "matrix"]))
+        force = {"axis": "y", "kind": kind, "relative": False, "reference": "data"}
+        if kind == "simple":
+            force["shape"] = str(rng.choice(["scalar", "vec", "constvec"]))
+            if rng.random() < 0.6:
+                force["corr"] = float(np.round(rng.uniform(0.1, 0.9), 3))
+        op = gen.gen_source(rng, n_s, "indexed", "sh%d" % k, yscale=yscale, force=force, allow_model=False, allow_x=False)
+        a = dict(op[1])
+        has_xy = any(members[i]["spec"]["type"] == "xy" for i in sub)
+        a["axis"] = "y" if (has_xy or rng.random() < 0.5) else None  # IndexedFit members: 'y' / None mean the same
+        a["fits"] = "all" if (len(sub) == nm and rng.random() < 0.4) else (sub[::-1] if rng.random() < 0.2 else sub)
+        out.append([op[0], a])
+    return out
+
+
+def scale_op(op, s):
+    """express an absolute uncertainty source in another unit (relative sources are unit-free)"""
+    a = op[1]
+    if a.get("relative"):
+        return
+    if op[0] == "add_error":
+        a["err"] = [float(v * s) for v in a["err"]] if isinstance(a["err"], list) else float(a["err"] * s)
+    elif a["matrix_type"] == "cov":
+        a["matrix"] = (np.array(a["matrix"], dtype=float) * s * s).tolist()
+    else:
+        a["err_val"] = [float(v * s) for v in a["err_val"]] if isinstance(a["err_val"], list) else float(a["err_val"] * s)
+
+
 def scale_member(mb, s):
-    """express a member's data and absolute uncertainties in another unit (relative sources are unit-free)"""
+    """express a member's data and absolute uncertainties in another unit"""
     spec = mb["spec"]
     key = "y" if "y" in spec else "data"
     spec[key] = [float(v * s) for v in spec[key]]
     for op in mb["setup"]:
-        a = op[1]
-        if a.get("relative"):
-            continue
-        if op[0] == "add_error":
-            a["err"] = [float(v * s) for v in a["err"]] if isinstance(a["err"], list) else float(a["err"] * s)
-        elif a["matrix_type"] == "cov":
-            a["matrix"] = (np.array(a["matrix"], dtype=float) * s * s).tolist()
-        else:
-            a["err_val"] = [float(v * s) for v in a["err_val"]] if isinstance(a["err_val"], list) else float(a["err_val"] * s)
+        scale_op(op, s)
 
 
 def gen_case(rng, tier, idx, shard, nshards):
     gi = idx * nshards + shard
-    kind = ["xy", "indexed", "multi"][gi % 3] if gi < 30 else str(rng.choice(["xy", "indexed", "multi"], p=[0.45, 0.25, 0.3]))
-    minimizer = ["iminuit", "scipy"][(gi // 3) % 2] if gi < 30 else str(rng.choice(["iminuit", "scipy"]))
+    stratified = gi < 30
+    kind = ["xy", "indexed", "multi"][gi % 3] if stratified else str(rng.choice(["xy", "indexed", "multi"], p=[0.45, 0.25, 0.3]))
+    minimizer = ["iminuit", "scipy"][(gi // 3) % 2] if stratified else str(rng.choice(["iminuit", "scipy"]))
+    shared, S = [], []
     if kind == "multi":
+        # stratified part: the multi-fits number 1, 2, 5, 6, 9 (gi = 5, 8, 17, 20, 29: scipy, iminuit, scipy, iminuit, scipy) have shared sources,
+        # first source simple / matrix in turn; the others (and the single fits) keep the block-diagonal V
+        mi = gi // 3
+        shared_mode = bool(mi % 4 in (1, 2)) if stratified else bool(rng.random() < 0.5)
         fams = [str(f) for f in rng.choice(["poly1", "poly2", "trig", "expbasis", "poly0"], size=int(rng.integers(2, 4)))]
-        members = [gen_member(rng, str(rng.choice(["xy", "indexed"])), f, "m%d" % j) for j, f in enumerate(fams)]
+        nm = len(fams)
+        n_s = None
+        if shared_mode:
+            S = sorted(int(i) for i in rng.choice(nm, size=int(rng.integers(2, nm + 1)), replace=False))
+            n_s = int(rng.integers(max(len(Model(fams[i]).pnames) for i in S) + 2, 12))
+        members = [gen_member(rng, str(rng.choice(["xy", "indexed"])), f, "m%d" % j, n=n_s if j in S else None) for j, f in enumerate(fams)]
+        if shared_mode:
+            shared = gen_shared(rng, members, S, n_s, stratified_kind={1: "simple", 2: "matrix", 5: "matrix", 6: "simple", 9: "matrix"}[mi] if stratified else None)
     else:
         fam = str(rng.choice(["poly0", "poly1", "poly2", "poly3", "poly4", "trig", "expbasis"], p=[0.05, 0.25, 0.25, 0.15, 0.05, 0.15, 0.1]))
         members = [gen_member(rng, kind, fam, "")]
@@ -105,9 +158,22 @@ def gen_case(rng, tier, idx, shard, nshards):
             if n not in names:
                 names.append(n)
                 defaults.append(v)
+    # constraints declared on the fit / multi-fit ...
     constraints = []
     for _ in range(int(rng.choice([0, 0, 1, 1, 2]))):
         constraints.append(gen.gen_constraint(rng, names, defaults))
+    # ... and, in a multi-fit, on member fits (over the member's own parameters): [member index, when, op] with
+    # when = before-multi (the member is constrained when the multi-fit is built) / before-shared / after-shared (= after the multi-fit's sources)
+    member_constraints = []
+    if kind == "multi":
+        k = int(rng.choice([0, 1, 1, 2])) if not (stratified and shared) else int(rng.choice([1, 2]))
+        for t in range(k):
+            # with shared sources the first one goes to a sharing member that is not the last member of the multi-fit
+            j = int(S[int(rng.integers(0, len(S) - 1))]) if (shared and t == 0) else int(rng.integers(0, len(members)))
+            m = Model.from_spec(members[j]["spec"]["model"])
+            when = str(rng.choice(["before-multi", "before-shared", "after-shared"]))
+            member_constraints.append([j, when, gen.gen_constraint(rng, list(m.pnames), [defaults[names.index(q)] for q in m.pnames])])
+    constraint_when = [str(rng.choice(["before-shared", "after-shared"])) for _ in constraints]
     fixed = {}
     if len(names) >= 2 and rng.random() < 0.4:
         k = int(rng.integers(1, len(names)))
@@ -117,20 +183,42 @@ def gen_case(rng, tier, idx, shard, nshards):
     # cost must not depend on the magnitude of the numbers.  iminuit only: the scipy backend's sensitivity to the unit is the recorded
     # finding C15/scipy-minimizer-stops-short-when-rescaled
     unit = 1.0
-    if minimizer == "iminuit" and (gi % 5 == 3 or rng.random() < 0.2):
+    if minimizer == "iminuit" and (gi % 5 == 3 or (not stratified and rng.random() < 0.2)):
         unit = float(rng.choice([1e-6, 1e-4, 1e4]))
-        constraints = []
+        constraints, constraint_when, member_constraints = [], [], []
         for mb in members:
             scale_member(mb, unit)
+        for op in shared:
+            scale_op(op, unit)
         defaults = [d * unit for d in defaults]
         fixed = {n: float(v * unit) for n, v in fixed.items()}
     far = bool(rng.random() < 0.3)
     start = {n: float(np.round(d * (rng.uniform(-30, 30) if far else rng.uniform(0.5, 1.5)) + rng.uniform(-0.5, 0.5) * unit, 4 if unit == 1.0 else 12)) for n, d in zip(names, defaults) if n not in fixed}
-    return {"property": "C05", "unit": unit, "kind": kind, "minimizer": minimizer, "members": members, "constraints": constraints, "fixed": fixed, "start": start, "far_start": far, "asym": bool(minimizer == "iminuit" or rng.random() < (0.1 if tier == "quick" else 1.0))}
+    return {"property": "C05", "unit": unit, "kind": kind, "minimizer": minimizer, "members": members, "shared": shared, "constraints": constraints, "constraint_when": constraint_when, "member_constraints": member_constraints,
+            "fixed": fixed, "start": start, "far_start": far, "asym": bool(minimizer == "iminuit" or rng.random() < (0.1 if tier == "quick" else 1.0))}
 
 
 # ------------------------------------------------------------------ closed form
-def gls(members, names, constraints, fixed):
+def joint_data_cov(members, shared):
+    """joint covariance of the stacked data of the members: own (+ shared) sources in the diagonal blocks (a shared source is a declared
+    source of every sharing member's reference) and the shared source's matrix in every block between two different sharing members"""
+    off, o = [], 0
+    for mb in members:
+        off.append(o)
+        o += mb.ref.n
+    V = np.zeros((o, o))
+    for i, mb in enumerate(members):
+        V[off[i] : off[i] + mb.ref.n, off[i] : off[i] + mb.ref.n] = mb.ref.total_cov(np.zeros(len(mb.ref.p)))
+    for sh in shared:
+        for a in sh["fits"]:
+            for b in sh["fits"]:
+                if a != b:
+                    ra, rb = members[a].ref, members[b].ref
+                    V[off[a] : off[a] + ra.n, off[b] : off[b] + rb.n] += source_cov(sh["src"], ra.d)  # absolute: the reference values do not enter
+    return V
+
+
+def gls(members, names, constraints, fixed, shared=()):
     """members: list of Member (reference side used only). Returns dict with p_hat (full), cov (full, zeros for fixed), chi2, logdet."""
     rows_A, rows_y, blocks = [], [], []
     logdet = 0.0
@@ -146,8 +234,13 @@ def gls(members, names, constraints, fixed):
         V = r.total_cov(zero)
         rows_A.append(A)
         rows_y.append(r.d - b)
+        if not shared:
+            blocks.append(V)
+            logdet += float(np.linalg.slogdet(V)[1])
+    if shared:
+        V = joint_data_cov(members, shared)
         blocks.append(V)
-        logdet += float(np.linalg.slogdet(V)[1])
+        logdet = float(np.linalg.slogdet(V)[1])
     for c in constraints:
         if c["kind"] == "simple":
             A = np.zeros((1, len(names)))
@@ -196,6 +289,38 @@ def gls(members, names, constraints, fixed):
 
 
 # ------------------------------------------------------------------ execution
+def declare_constraint(obj, cop):
+    a = cop[1]
+    if cop[0] == "add_parameter_constraint":
+        obj.add_parameter_constraint(name=a["name"], value=a["value"], uncertainty=a["uncertainty"], relative=a.get("relative", False))
+    else:
+        obj.add_matrix_parameter_constraint(names=a["names"], values=a["values"], matrix=a["matrix"], matrix_type=a["matrix_type"], uncertainties=a.get("uncertainties"), relative=a.get("relative", False))
+
+
+def ref_constraint(cop, names):
+    """the constraint as measurement rows over the global parameter list"""
+    a = cop[1]
+    if cop[0] == "add_parameter_constraint":
+        return {"kind": "simple", "index": names.index(a["name"]), "value": a["value"], "uncertainty": a["uncertainty"], "relative": a.get("relative", False)}
+    return {"kind": "matrix", "indices": [names.index(n) for n in a["names"]], "values": a["values"], "matrix": a["matrix"], "matrix_type": a["matrix_type"], "uncertainties": a.get("uncertainties"), "relative": a.get("relative", False)}
+
+
+def declare_shared(multi, members, op):
+    """a source declared through the multi-fit; in the reference one source dict owned by every sharing member"""
+    a = op[1]
+    fits = list(range(len(members))) if a["fits"] == "all" else [int(j) for j in a["fits"]]
+    if op[0] == "add_error":
+        multi.add_error(err_val=np.array(a["err"], dtype=float) if isinstance(a["err"], list) else a["err"], fits=a["fits"], axis=a["axis"], name=a["name"], correlation=a.get("corr", 0.0), relative=False, reference="data")
+        src = {"kind": "simple", "axis": "y", "err": a["err"], "corr": a.get("corr", 0.0), "relative": False, "reference": "data", "enabled": True, "name": a["name"]}
+    else:
+        ev = a.get("err_val")
+        multi.add_matrix_error(err_matrix=np.array(a["matrix"], dtype=float), matrix_type=a["matrix_type"], fits=a["fits"], axis=a["axis"], name=a["name"], err_val=np.array(ev, dtype=float) if isinstance(ev, list) else ev, relative=False, reference="data")
+        src = {"kind": "matrix", "axis": "y", "matrix": a["matrix"], "matrix_type": a["matrix_type"], "err_val": ev, "relative": False, "reference": "data", "enabled": True, "name": a["name"]}
+    for j in fits:
+        members[j].ref.sources.append(src)
+    return {"src": src, "fits": fits}
+
+
 def run_case(ctx, case):
     from kafe2.fit import MultiFit
 
@@ -203,23 +328,57 @@ def run_case(ctx, case):
     ctx.stratum(case["kind"])
     ctx.stratum(case["minimizer"])
     members = [Member(m["spec"], m["setup"], minimizer=case["minimizer"]) for m in case["members"]]
+    shared_ops = case.get("shared") or []
+    member_constraints = case.get("member_constraints") or []
+    when_multi = case.get("constraint_when") or ["before-shared"] * len(case["constraints"])
+    ref_constraints = []  # rows over the global parameter list, wherever the constraint was declared
+    deferred = []  # member constraints declared before the multi-fit exists: the global names are known only afterwards
+
+    def member_constraint(j, when, cop):
+        ctx.op("member." + cop[0])
+        declare_constraint(members[j].fit, cop)
+        ctx.stratum("multi:member-constraint")
+        ctx.stratum("multi:member-constraint:" + when)
+        ctx.stratum("constraint-simple" if cop[0] == "add_parameter_constraint" else "constraint-matrix")
+
+    for j, when, cop in member_constraints:
+        if when == "before-multi":
+            member_constraint(j, when, cop)
+            deferred.append(cop)
     if case["kind"] == "multi":
         fit = MultiFit([mb.fit for mb in members], minimizer=case["minimizer"])
     else:
         fit = members[0].fit
     names = list(fit.parameter_names)
-    # constraints (declared on the fit / multi-fit), in the reference as rows over the global parameter list
-    ref_constraints = []
-    for cop in case["constraints"]:
-        a = cop[1]
-        if cop[0] == "add_parameter_constraint":
-            fit.add_parameter_constraint(name=a["name"], value=a["value"], uncertainty=a["uncertainty"], relative=a.get("relative", False))
-            ref_constraints.append({"kind": "simple", "index": names.index(a["name"]), "value": a["value"], "uncertainty": a["uncertainty"], "relative": a.get("relative", False)})
-            ctx.stratum("constraint-simple")
-        else:
-            fit.add_matrix_parameter_constraint(names=a["names"], values=a["values"], matrix=a["matrix"], matrix_type=a["matrix_type"], uncertainties=a.get("uncertainties"), relative=a.get("relative", False))
-            ref_constraints.append({"kind": "matrix", "indices": [names.index(n) for n in a["names"]], "values": a["values"], "matrix": a["matrix"], "matrix_type": a["matrix_type"], "uncertainties": a.get("uncertainties"), "relative": a.get("relative", False)})
-            ctx.stratum("constraint-matrix")
+    ref_constraints += [ref_constraint(cop, names) for cop in deferred]
+
+    def declare_all(phase):
+        for cop, when in zip(case["constraints"], when_multi):
+            if when == phase:
+                declare_constraint(fit, cop)
+                ref_constraints.append(ref_constraint(cop, names))
+                ctx.stratum("constraint-simple" if cop[0] == "add_parameter_constraint" else "constraint-matrix")
+                if case["kind"] == "multi":
+                    ctx.stratum("multi:multi-constraint")
+        for j, when, cop in member_constraints:
+            if when == phase:
+                member_constraint(j, when, cop)
+                ref_constraints.append(ref_constraint(cop, names))
+
+    declare_all("before-shared")
+    shared = []
+    for op in shared_ops:
+        ctx.op("multi.%s.shared" % op[0])
+        shared.append(declare_shared(fit, members, op))
+        ctx.stratum("multi:shared")
+        ctx.stratum("multi:shared:" + shared[-1]["src"]["kind"])
+        ctx.stratum("multi:shared:" + ("all-members" if len(shared[-1]["fits"]) == len(members) else "subset"))
+    declare_all("after-shared")
+    if shared and member_constraints:
+        ctx.stratum("multi:shared+member-constraint")
+        last = len(members) - 1
+        ctx.stratum("multi:shared+member-constraint:" + ("on-last-member-only" if all(j == last for j, _, _ in member_constraints) else "on-other-than-last-member"))
+        ctx.add_to_set("multi-shared-member-constraint-config", "%s|%s|%s" % ("+".join(sh["src"]["kind"] for sh in shared), "+".join(sorted(set(w for _, w, _ in member_constraints))), "+".join(sorted(set(c[0].replace("add_", "").replace("_parameter_constraint", "") for _, _, c in member_constraints)))))
     for n, v in case["fixed"].items():
         fit.fix_parameter(n, v)
         ctx.stratum("fixed")
@@ -235,11 +394,16 @@ def run_case(ctx, case):
         if not ok or cond > 1e8:
             ctx.discard("V-not-pd-or-ill-conditioned")
             return False
-    g = gls(members, names, ref_constraints, case["fixed"])
+    if shared:
+        ok, cond = pd_info(joint_data_cov(members, shared))
+        if not ok or cond > 1e8:
+            ctx.discard("joint-V-not-pd-or-ill-conditioned")
+            return False
+    g = gls(members, names, ref_constraints, case["fixed"], shared)
     if not g["okH"] or g["condH"] > 1e8:
         ctx.discard("normal-matrix-ill-conditioned")
         return False
-    correlated = any(np.any(np.abs(mb.ref.total_cov(np.zeros(len(mb.ref.p))) - np.diag(np.diag(mb.ref.total_cov(np.zeros(len(mb.ref.p)))))) > 0) for mb in members)
+    correlated = bool(shared) or any(np.any(np.abs(mb.ref.total_cov(np.zeros(len(mb.ref.p))) - np.diag(np.diag(mb.ref.total_cov(np.zeros(len(mb.ref.p)))))) > 0) for mb in members)
     if correlated:
         ctx.stratum("correlated-V")
     nontrivial = (correlated or bool(ref_constraints) or bool(case["fixed"])) and len(g["free"]) >= 2
@@ -271,6 +435,12 @@ def run_case(ctx, case):
         except Exception:
             skey = None
     ctx.check("parameter_values", bool(np.all(np.abs(pv - g["p"])[free] <= ptol * sig[free])), lambda: {"got": pv, "expected": g["p"], "sigma": sig, "deviation_in_sigma": (np.abs(pv - g["p"]) / sig_safe)}, key=skey)
+    if shared:
+        ctx._count("parameter_values(multi-fit with shared source)")
+        if member_constraints:
+            ctx._count("parameter_values(multi-fit with shared source and member constraint)")
+    elif member_constraints:
+        ctx._count("parameter_values(multi-fit with member constraint)")
     if g["fix"]:
         ctx.eq("fixed_untouched", pv[g["fix"]], g["p"][g["fix"]])
     w = float(np.max((np.abs(pv - g["p"]) / sig_safe)[free]))
